@@ -365,7 +365,26 @@ def check_slow(case):
     return info
 
 
+@st.composite
+def manager_route_case(draw):
+    from checks import c10_restraints as c10
+    case = draw(c10.manager_case())
+    case["bad"] = None
+    return case
+
+
+def check_manager_route(case):
+    """The search of each species, started through Manager.align_molecules (options per species in dictionaries of any
+    order, validated beforehand or not), is restricted to the deformation types enabled FOR THAT SPECIES: what reaches
+    the optimiser is compared species by species (the oracle is C10's recorder of the optimiser's arguments)."""
+    from checks import c10_restraints as c10
+    info = c10.check_manager(case)
+    info["nontrivial"] = len(set(tuple(o.get("deform", (0, 1, 2))) for o in case["opts"].values())) >= 2
+    return info
+
+
 SUBCHECKS = [
+    Sub("manager-route", check_manager_route, strategy=lambda tier: manager_route_case(), quick=300, thorough=12000),
     Sub("slow", check_slow, enumerate=slow_cases, shards=4,
         note="searches whose total length exceeds 1000 x budget (the stop rule counts consecutive steps only)"),
     Sub("trace", check, strategy=lambda tier: case_strategy(tier), quick=800, thorough=30000,
